@@ -359,6 +359,16 @@ theorem prefix_text_roundtrip (a len : Nat) (hl : len < 256) (p : Pfx)
     · exact PfxText.wf_of_newV6Relaxed a len p ha hl h
   exact ⟨PfxText.parsePfx_fmt false p hw, PfxText.parsePfx_fmt true p hw⟩
 
+/-- **Text cannot make an invalid prefix.** Whatever `Prefix::from_str` (strict) or `from_str_relaxed`
+accepts is the value the strict / relaxed constructor returns for the address and the `u8` length read
+from the text — so, by the constructor theorems above, its length lies within its family and its host
+bits are zero. -/
+theorem parsed_prefix_is_constructed (relaxed : Bool) (s : ResText.Bytes) (p : Pfx)
+    (h : PfxText.parsePfx relaxed s = .ok p) :
+    ∃ v4 a len, len < 256 ∧ PfxText.pfxNew relaxed (v4, a) len = .ok p := by
+  obtain ⟨⟨v4, a⟩, len, hl, hp⟩ := PfxText.parsePfx_ok relaxed s p h
+  exact ⟨v4, a, len, hl, hp⟩
+
 /-- Two constructed prefixes with the same text are the same prefix. -/
 theorem prefix_text_injective (p q : Pfx) (hp : PfxText.PfxWF p) (hq : PfxText.PfxWF q)
     (h : PfxText.fmtPfx p = PfxText.fmtPfx q) : p = q := by
